@@ -689,12 +689,18 @@ func (m *M) evalLR(r *Rule, disp string, o int) (bool, int, any) {
 	}()
 	// seed: the recursive reference fails
 	m.lrVal[r.Name] = lrBinding{off: o, ok: false}
+	st0 := copyState(m.state)
+	ne0 := len(m.errs)
 	m.rules = append(m.rules, disp)
 	m.pushScope()
 	ok, end, v := m.eval(r.Expr, o)
 	m.popScope()
 	m.rules = m.rules[:len(m.rules)-1]
 	if !ok {
+		// a failing seed is itself the final, non-extending attempt: it leaves
+		// no error (block errors, invalid-encoding reports) and no state change
+		m.state = st0
+		m.errs = m.errs[:ne0]
 		return false, o, nil
 	}
 	for {
